@@ -12,6 +12,8 @@ CONSTANTS
   PenaltySet = {1}
   KSet = {1}
   PreSet = {0}
+  PostSet = {0}
+  TransOn = FALSE
   TraceFile = "trace.ndjson"
   Checked = {"q", "nser", "deN", "tok"}
   Owned = {"SubmitDEs", "ResetDE", "Request", "RequestRollback", "EndBlock.assign"}
